@@ -74,6 +74,11 @@ def gen_inputs(key, r):
             if not ((Wm > 0).any() and (Wm < 0).any()):
                 return None
         return d
+    if base == 'modularity_louvain_und':
+        Wm = _und(r, n + int(r.randint(0, 4)), p=float(r.choice([.3, .5, .8])))
+        if Wm.sum() <= 0:
+            return None
+        return dict(W=Wm, gamma=float(r.choice([.8, 1., 1.3])), hierarchy=False, seed=Scripted((), fallback_seed=int(r.randint(1 << 30)), max_draws=200000))
     return None
 
 
